@@ -367,7 +367,7 @@ def run_r5(chk: Check, prog: Program, S: Summaries) -> None:
     subtrees beside the path (tracking state kept anywhere, look-ups by a key that is not unique) are interpreted too."""
     from .c08 import Pat
     chk.rule("C13.R5", "clone_from_root() on every node of every small tree, real clone() everywhere: the copy of that very "
-             "node, at the same position", minimum=200)
+             "node, at the same position - also when the same tree object was asked for another node before", minimum=200)
     m = prog.func("expressions", "MathExpression.clone_from_root")
     depth = 2 if chk.tier == "quick" else 3
     trees = _small_trees(2)
